@@ -29,12 +29,15 @@ TYPES = {
     "W": ("Wahrheitswert", "Wahrheitswert Referenz", "einen Wahrheitswert", "wahr", "1"),
     "C": ("Buchstabe", "Buchstaben Referenz", "einen Buchstaben", "'ä'", "228"),
     "T": ("Text", "Text Referenz", "einen Text", '"ab€"', "ab€"),
-    "LZ": ("Zahlen Liste", "Zahlen Listen Referenz", "eine Zahlen Liste", "eine Liste, die aus 4, 5, 6 besteht", "4,5,6,"),
-    "LT": ("Text Liste", "Text Listen Referenz", "eine Text Liste", 'eine Liste, die aus "x", "yz" besteht', "x,yz,"),
-    "LK": ("Kommazahlen Liste", "Kommazahlen Listen Referenz", "eine Kommazahlen Liste", "eine Liste, die aus 1,5, 2,5 besteht", "1.500,2.500,"),
-    "LB": ("Byte Liste", "Byte Listen Referenz", "eine Byte Liste", "eine Liste, die aus (1 als Byte), (255 als Byte) besteht", "1,255,"),
-    "LW": ("Wahrheitswert Liste", "Wahrheitswert Listen Referenz", "eine Wahrheitswert Liste", "eine Liste, die aus wahr, falsch besteht", "1,0,"),
-    "LC": ("Buchstaben Liste", "Buchstaben Listen Referenz", "eine Buchstaben Liste", "eine Liste, die aus 'a', 'ä' besteht", "97,228,"),
+    # the standard list values come out of a concatenation: their capacity is larger than their length, so a callee (or caller)
+    # that confuses the two members of the published struct is seen; the plain literals (len == cap) are among VALUES
+    "LZ": ("Zahlen Liste", "Zahlen Listen Referenz", "eine Zahlen Liste", "(eine Liste, die aus 4, 5 besteht) verkettet mit 6", "3<4,5,6,"),
+    "LT": ("Text Liste", "Text Listen Referenz", "eine Text Liste", '(eine Liste, die aus "x" besteht) verkettet mit "yz"', "2<x,yz,"),
+    "LK": ("Kommazahlen Liste", "Kommazahlen Listen Referenz", "eine Kommazahlen Liste", "(eine Liste, die aus 1,5 besteht) verkettet mit 2,5", "2<1.500,2.500,"),
+    "LB": ("Byte Liste", "Byte Listen Referenz", "eine Byte Liste", "(eine Liste, die aus (1 als Byte) besteht) verkettet mit (255 als Byte)", "2<1,255,"),
+    "LW": ("Wahrheitswert Liste", "Wahrheitswert Listen Referenz", "eine Wahrheitswert Liste", "(eine Liste, die aus wahr besteht) verkettet mit falsch", "2<1,0,"),
+    "LC": ("Buchstaben Liste", "Buchstaben Listen Referenz", "eine Buchstaben Liste", "(eine Liste, die aus 'a' besteht) verkettet mit 'ä'", "2<97,228,"),
+    "LV": ("Variablen Liste", "Variablen Listen Referenz", "eine Variablen Liste", "(eine Liste, die aus (4 als Variable) besteht) verkettet mit (5 als Variable)", "2<8:4,8:5,"),
     "S:Punkt": ("Punkt", "Punkt Referenz", "einen Punkt", '(mach_Punkt 3 "p")', "3/p"),
     "V": ("Variable", "Variablen Referenz", "eine Variable", "(77 als Variable)", "8:77"),
 }
@@ -51,11 +54,14 @@ VALUES = {
           ("(knifflig z_zwei z_53)", "1", "wahr"), ("(nicht (knifflig z_zwei z_53))", "0", "falsch"), ("(nicht (knifflig z_zwei 5))", "1", "wahr")],
     "C": [("'a'", "97", "a"), ("'😀'", "128512", "😀")],
     "T": [('""', "", ""), ('("a" verkettet mit "😀")', "a😀", "a😀")],
-    "LZ": [("eine leere Zahlen Liste", "", "[]")],
-    "LT": [("eine leere Text Liste", "", "[]")],
-    "LK": [("eine leere Kommazahlen Liste", "", "[]")],
-    "LW": [("eine Liste, die aus (nicht w_wahr), (nicht w_falsch) besteht", "0,1,", "[falsch,wahr,]"),
-           ("eine Liste, die aus (nicht (knifflig z_zwei z_53)), (knifflig z_zwei z_53) besteht", "0,1,", "[falsch,wahr,]")],
+    "LZ": [("eine leere Zahlen Liste", "0=", "[]"), ("eine Liste, die aus 4, 5, 6 besteht", "3=4,5,6,", "")],
+    "LT": [("eine leere Text Liste", "0=", "[]"), ('eine Liste, die aus "x", "yz" besteht', "2=x,yz,", "")],
+    "LK": [("eine leere Kommazahlen Liste", "0=", "[]"), ("eine Liste, die aus 1,5, 2,5 besteht", "2=1.500,2.500,", "")],
+    "LB": [("eine Liste, die aus (1 als Byte), (255 als Byte) besteht", "2=1,255,", "")],
+    "LC": [("eine Liste, die aus 'a', 'ä' besteht", "2=97,228,", "")],
+    "LW": [("eine Liste, die aus (nicht w_wahr), (nicht w_falsch) besteht", "2=0,1,", "[falsch,wahr,]"),
+           ("eine Liste, die aus (nicht (knifflig z_zwei z_53)), (knifflig z_zwei z_53) besteht", "2=0,1,", "[falsch,wahr,]")],
+    "LV": [("eine leere Variablen Liste", "0=", "[]"), ("eine Liste, die aus (4 als Variable), (5 als Variable), (6 als Variable) besteht", "3=8:4,8:5,8:6,", "")],
 }
 GLOBALS = ("Der Wahrheitswert w_wahr ist wahr.\nDer Wahrheitswert w_falsch ist falsch.\nDie Zahl z_eins ist 1.\nDie Zahl z_zwei ist 2.\nDie Zahl z_53 ist 53.\n"
            "Die Funktion ziffer mit dem Parameter z vom Typ Zahl, gibt einen Wahrheitswert zurück, macht:\n"
@@ -82,10 +88,14 @@ def c_print(code, expr, deref):
         return 'printf("%%d;", (int)%s);' % v
     if code == "T":
         return 'printf("%%s;", %s->str ? %s->str : "");' % (expr, expr)
+    lenhead = 'printf("%%lld%%s", (long long)%s->len, %s->len < %s->cap ? "<" : %s->len == %s->cap ? "=" : ">"); ' % (expr, expr, expr, expr, expr)
     if code in ELEM:
-        return 'for (ddpint i = 0; i < %s->len; i++) printf(%s%s->arr[i]); printf(";");' % (expr, ELEM[code][2], expr)
+        return lenhead + 'for (ddpint i = 0; i < %s->len; i++) printf(%s%s->arr[i]); printf(";");' % (expr, ELEM[code][2], expr)
     if code == "LT":
-        return 'for (ddpint i = 0; i < %s->len; i++) printf("%%s,", %s->arr[i].str ? %s->arr[i].str : ""); printf(";");' % (expr, expr, expr)
+        return lenhead + 'for (ddpint i = 0; i < %s->len; i++) printf("%%s,", %s->arr[i].str ? %s->arr[i].str : ""); printf(";");' % (expr, expr, expr)
+    if code == "LV":
+        return lenhead + ('for (ddpint i = 0; i < %s->len; i++) printf("%%lld:%%lld,", (long long)%s->arr[i].vtable_ptr->type_size, '
+                          '(long long)*(ddpint *)(DDP_ANY_VALUE_PTR(&%s->arr[i]))); printf(";");' % (expr, expr, expr))
     if code == "S:Punkt":
         return 'printf("%%lld/%%s;", (long long)%s->fx, %s->ft.str ? %s->ft.str : "");' % (expr, expr, expr)
     if code == "V":
@@ -119,6 +129,8 @@ def c_mutate(code, expr):
         return "if (%s->len > 0) %s->arr[0] = 0x20AC;" % (expr, expr), "[€,ä,]"
     if code == "LT":
         return "if (%s->len > 1) { ddp_free_string(&%s->arr[1]); set_text(&%s->arr[1], \"c\"); }" % (expr, expr, expr), "[x,c,]"
+    if code == "LV":
+        return "if (%s->len > 0) *(ddpint *)(DDP_ANY_VALUE_PTR(&%s->arr[0])) = 99;" % (expr, expr), "[99,5,]"
     if code == "S:Punkt":
         return "%s->fx = -1; ddp_free_string(&%s->ft); set_text(&%s->ft, \"geändert\");" % (expr, expr, expr), "-1/geändert"
     return None, None
@@ -139,13 +151,15 @@ def c_return(code):
     if code == "T":
         return 'set_text(ret, "zurück");', "zurück"
     if code == "LZ":
-        return "ret->len = 2; ret->cap = 2; ret->arr = ddp_reallocate(NULL, 0, 2 * sizeof(ddpint)); ret->arr[0] = 10; ret->arr[1] = -20;", "[10,-20,]"
+        return "ret->len = 2; ret->cap = 5; ret->arr = ddp_reallocate(NULL, 0, 5 * sizeof(ddpint)); ret->arr[0] = 10; ret->arr[1] = -20;", "[10,-20,]"
     if code in ("LK", "LB", "LW", "LC"):
         ct, v0, v1, shown = {"LK": ("ddpfloat", "0.25", "-1.5", "[0.25,-1.5,]"), "LB": ("ddpbyte", "3", "254", "[3,254,]"),
                              "LW": ("ddpbool", "false", "true", "[falsch,wahr,]"), "LC": ("ddpchar", "'z'", "0x1F600", "[z,😀,]")}[code]
-        return ("ret->len = 2; ret->cap = 2; ret->arr = ddp_reallocate(NULL, 0, 2 * sizeof(%s)); ret->arr[0] = %s; ret->arr[1] = %s;" % (ct, v0, v1), shown)
+        return ("ret->len = 2; ret->cap = 5; ret->arr = ddp_reallocate(NULL, 0, 5 * sizeof(%s)); ret->arr[0] = %s; ret->arr[1] = %s;" % (ct, v0, v1), shown)
     if code == "LT":
-        return ("ret->len = 2; ret->cap = 2; ret->arr = ddp_reallocate(NULL, 0, 2 * sizeof(ddpstring)); set_text(&ret->arr[0], \"r1\"); set_text(&ret->arr[1], \"\");", "[r1,,]")
+        return ("ret->len = 2; ret->cap = 5; ret->arr = ddp_reallocate(NULL, 0, 5 * sizeof(ddpstring)); set_text(&ret->arr[0], \"r1\"); set_text(&ret->arr[1], \"\");", "[r1,,]")
+    if code == "LV":
+        return ("ret->len = 2; ret->cap = 5; ret->arr = ddp_reallocate(NULL, 0, 5 * sizeof(ddpany)); for (int i = 0; i < 5; i++) ret->arr[i] = DDP_EMPTY_ANY;", "[_,_,]")
     if code == "S:Punkt":
         return 'ret->fx = 8; set_text(&ret->ft, "aus C");', "8/aus C"
     if code == "N":
@@ -161,6 +175,9 @@ def ddp_print(code, expr):
         return 'Schreibe "[".\nFür %s el in %s, mache:\n\tSchreibe el.\n\tSchreibe ",".\nSchreibe "]" auf eine Zeile.\n' % (ELEM[code][1], expr)
     if code == "LT":
         return 'Schreibe "[".\nFür jeden Text el in %s, mache:\n\tSchreibe el.\n\tSchreibe ",".\nSchreibe "]" auf eine Zeile.\n' % expr
+    if code == "LV":
+        return ('Schreibe "[".\nFür jede Variable el in %s, mache:\n\tWenn el eine Zahl ist, Schreibe (el als Zahl).\n\tSonst Schreibe "_".\n\tSchreibe ",".\n'
+                'Schreibe "]" auf eine Zeile.\n' % expr)
     if code == "S:Punkt":
         return 'Schreibe (fx von %s).\nSchreibe "/".\nSchreibe (ft von %s) auf eine Zeile.\n' % (expr, expr)
     if code == "V":
@@ -169,7 +186,7 @@ def ddp_print(code, expr):
 
 
 DDP_UNCHANGED = {"Z": "41", "K": "2.5", "B": "200", "W": "wahr", "C": "ä", "T": "ab€", "LZ": "[4,5,6,]", "LT": "[x,yz,]", "S:Punkt": "3/p", "V": "77",
-                 "LK": "[1.5,2.5,]", "LB": "[1,255,]", "LW": "[wahr,falsch,]", "LC": "[a,ä,]"}
+                 "LK": "[1.5,2.5,]", "LB": "[1,255,]", "LW": "[wahr,falsch,]", "LC": "[a,ä,]", "LV": "[4,5,]"}
 
 
 def gen_function(rng, idx):
